@@ -362,7 +362,9 @@ def run(tier, ext=".c", pid=ID):
     rot = env.SEED % len(CONDS_T)
     ext_conds = [CONDS_T[(rot + 3 * k) % len(CONDS_T)] for k in range(2)]
     progs_ext = cond.gen_directives(dmax + 1, ext_conds, DEFS_Q[:1] if tier == "quick" else DEFS_Q[1:3], macros=())
-    allp = progs + progs_full + progs_ext
+    # indirect macros: A's replacement names B, and B changes between two textually identical conditions
+    progs_ind = cond.gen_directives(6 if tier == "quick" else 7, ["A"], [("define", "A", "B"), ("define", "B", "1"), ("undef", "B")], maxdepth=2, macros=())
+    allp = progs + progs_full + progs_ext + progs_ind
     use_gcc = gcc.available() and ext == ".c"
     res = par.pmap(_e1, [(c, ext, use_gcc and gcc_every) for c in _chunks(allp, 250)])
     for r in res:
